@@ -3,6 +3,7 @@
 package ax
 
 import (
+	"bufio"
 	"bytes"
 	"errors"
 	"fmt"
@@ -83,10 +84,21 @@ const (
 	ViaCopy1K     = "copy-1k"     // io.CopyBuffer with a 1000-byte buffer from a plain source
 	ViaCopy64K    = "copy-64k"    // io.CopyBuffer with a reused 64 KiB buffer from a plain source
 	ViaReadFrom   = "readfrom"    // call ReadFrom directly if the writer has it (else as copy-plain)
+	// a short Write first, then everything else in ONE Write (a header line
+	// followed by a blob; io.Copy from a bytes.Reader after a first Write)
+	ViaHeadThenRest = "head-then-rest"
+	// exactly one full chunk first, then everything else in one Write
+	ViaChunkThenRest = "chunk-then-rest"
+	// a bufio.Writer in front of the encrypting writer: a small Write that it
+	// keeps, then a large one that it passes through after flushing
+	ViaBufioFronted = "bufio-fronted"
+	// one byte written, the rest through io.Copy from a bytes.Reader
+	ViaByteThenCopy = "byte-then-copy-buffer"
 )
 
 // Vias lists the hand-over modes.
-var Vias = []string{ViaWrite, ViaCopyPlain, ViaCopyBuffer, ViaCopy1K, ViaCopy64K, ViaReadFrom}
+var Vias = []string{ViaWrite, ViaCopyPlain, ViaCopyBuffer, ViaCopy1K, ViaCopy64K, ViaReadFrom,
+	ViaHeadThenRest, ViaChunkThenRest, ViaBufioFronted, ViaByteThenCopy}
 
 // EncryptVia runs Encrypt, hands the plaintext over in the given mode, and
 // closes. It returns the bytes at the destination.
@@ -121,6 +133,48 @@ func EncryptVia(plaintext []byte, armored bool, via string, recipients ...age.Re
 			n, err = rf.ReadFrom(plainReader{bytes.NewReader(plaintext)})
 		} else {
 			n, err = io.Copy(w, plainReader{bytes.NewReader(plaintext)})
+		}
+	case ViaHeadThenRest, ViaChunkThenRest:
+		k := 10
+		if via == ViaChunkThenRest {
+			k = 65536
+		}
+		if k > len(plaintext) {
+			k = len(plaintext)
+		}
+		var a, b int
+		a, err = w.Write(plaintext[:k])
+		if err == nil {
+			b, err = w.Write(plaintext[k:])
+		}
+		n = int64(a + b)
+	case ViaBufioFronted:
+		bw := bufio.NewWriterSize(w, 4096)
+		k := 100
+		if k > len(plaintext) {
+			k = len(plaintext)
+		}
+		var a, b int
+		a, err = bw.Write(plaintext[:k])
+		if err == nil {
+			b, err = bw.Write(plaintext[k:])
+		}
+		if err == nil {
+			err = bw.Flush()
+		}
+		n = int64(a + b)
+	case ViaByteThenCopy:
+		k := 1
+		if k > len(plaintext) {
+			k = 0
+		}
+		var a int
+		a, err = w.Write(plaintext[:k])
+		n = int64(a)
+		if err == nil {
+			var m int64
+			m, err = io.Copy(w, bytes.NewReader(plaintext[k:]))
+			n += m
 		}
 	default:
 		return nil, fmt.Errorf("verif: unknown hand-over mode %q", via)
